@@ -735,7 +735,13 @@ pub fn c17(tier: Tier, _seed: u64) -> Prop {
             "CKS 4-7 (external clock / cascade) suspends the oracle until a defined clock is selected again; TCORA != TCORB and both non-zero in every start combination with a clear source; unit free-running-compare-values covers zero and equal compare values without a clear source".into(),
             "depth bound: 4 set-up writes + 3 (quick) / 4 (thorough) runtime actions over 26 actions for all 256 TCR values; + 5 / 6 actions over 13 actions for 24 TCR values".into(),
         ],
-        units: c17_units(tier),
+        units: {
+            let mut u = c17_units(tier);
+            // the timer as run() drives it: guest with an overflow handler across sync thresholds, every loop iteration
+            // compared with a twin timer stepped by the harness (units shared with C13)
+            u.extend(super::runloop::c13(tier, 0).units.into_iter().filter(|x| x.name.starts_with("shape6/")));
+            u
+        },
         extra: Box::new(|m| {
             let mut trans = 0u64;
             for (_, st) in m.iter() {
